@@ -368,6 +368,45 @@ def rule_r3(repo):
             rr.fail('commands.command_split:writes', fi.where, 'the split pieces are written as %s (%s); expected each message\'s serialized_bytes to <file>.<k>' % (wr, r.describe()))
         if sc and sc[0][2].get('info_only') != 'True':
             rr.fail('commands.command_split:mode', fi.where, 'command_split scans with %s' % sc[0][2])
+    # counting (info -c): one line per file with the number of messages the scan yields for *that* file
+    ci = repo.func('commands', 'command_info')
+    per_file = {'three.bufr': 3, 'none.bufr': 0, 'one.bufr': 1}
+
+    class C(Interp):
+        def on_call(self, text, callee, args, kwargs, node, frame):
+            it = self
+            if text in ('Decoder', 'FlatTextRenderer'):
+                return Stub(text)
+            if text == 'open':
+                name = args[0] if args else kwargs.get('file')
+                return Stub('file', {'read': lambda interp, a, kw, node, frame: Sym('STREAM:%s' % name)}, attrs={'name': name})
+            if text == 'generate_bufr_message':
+                src = repr(args[1]) if len(args) > 1 else ''
+                name = src.split(':', 1)[1] if src.startswith('STREAM:') else None
+                self.event('scan', name, dict((k, repr(v)) for k, v in kwargs.items()))
+                return [Stub('message %d of %s' % (k, name)) for k in range(per_file.get(name, 0))]
+            if text == 'print':
+                self.event('print', args[0] if args else None)
+                return None
+            return self.NOT_HANDLED
+
+        def builtin(self, name, args, kwargs, node, frame):
+            if name == 'print':
+                self.event('print', args[0] if args else None)
+                return None
+            return Interp.builtin(self, name, args, kwargs, node, frame)
+    for order in (['three.bufr', 'none.bufr', 'one.bufr'], ['none.bufr', 'three.bufr'], ['one.bufr', 'one.bufr', 'none.bufr']):
+        it = C(repo, None)
+        ns = Obj('Namespace', {'filenames': list(order), 'definitions_directory': None, 'tables_root_directory': None, 'continue_on_error': False,
+                               'multiple_messages': False, 'count_only': True, 'template': False})
+        res = it.run_function(ci, lambda: {'ns': ns})
+        rr.instance('command_info -c on %s' % order)
+        want = ['%s: %d' % (f, per_file[f]) for f in order]
+        for r in res:
+            got = [e[1] for e in r.events if e[0] == 'print']
+            if not r.ok or got != want:
+                rr.fail('commands.command_info:count', ci.where, 'counting the messages of %s prints %s (%s); expected %s: each file is counted on its own' % (order, got, r.describe(), want),
+                        witness={'files': order})
     rr.require_floor(1)
     return rr
 
@@ -392,6 +431,8 @@ def run(repo, check):
     check.add(r5)
     from sa.rules.common import share
     share(check, repo, c17.rule_r3, 'C11.R6', 'decoder options never rewrite the section layouts later messages of the stream are read with (shared with C17.R3)')
+    from sa.rules import c18
+    share(check, repo, c18.rule_r7, 'C11.R7', 'a filter expression is evaluated with its query variables as the global namespace, on the message being tested (shared with C18.R7)')
     check.assumptions = ['the scripted decoder stands for Decoder.process: it succeeds exactly at real message starts, reports the decoded span (C04.R4) and '
                          'raises a library error on damaged input (C12); the scanner logic is what is decided here',
                          'the boundaries found in a particular byte string are a runtime fact']
